@@ -6,7 +6,7 @@ CONSTANTS
   Unit = FALSE
   Variant = "fixed"
   MaxCalls = 4
-  Trunc = {9}
+  Trunc = {9, 7, 4, 0}
 INVARIANTS NoReleaseBeforeVerify HistoryIndependence SequentialPrefix NoSilentTruncation
 PROPERTY EveryCallReturns
 CHECK_DEADLOCK FALSE
